@@ -20,8 +20,11 @@ pub(crate) struct Execution {
     /// All loom aware objects part of this execution run.
     pub(super) objects: object::Store,
 
-    /// Maps raw allocations to LeakTrack objects
-    pub(super) raw_allocations: HashMap<usize, Allocation>,
+    /// Maps raw allocations (made through `alloc::alloc`) to LeakTrack objects. Wrapped in `ManuallyDrop`: a
+    /// block that is still tracked when the execution is torn down (leaked, or
+    /// live while the model panics) must not run `Allocation::drop`, which
+    /// needs access to the execution.
+    pub(super) raw_allocations: HashMap<usize, std::mem::ManuallyDrop<Allocation>>,
 
     pub(crate) arc_objs: HashMap<*const (), std::sync::Arc<super::Arc>>,
 
